@@ -400,13 +400,13 @@ Proof.
   assert (Hchk : nz (w_iszero (w_and (w_gt (cds cd) 3) (w_eq (e_id e') mid))) = negb ((3 <? cds cd) && (e_id e' =? mid))).
   { unfold nz, w_iszero, w_and, w_gt, w_eq, Word256.b2z. rewrite Z.gtb_ltb.
     destruct (3 <? cds cd), (e_id e' =? mid); reflexivity. }
-  rewrite Hchk. destruct ((3 <? cds cd) && (e_id e' =? mid)) eqn:Esel; cbn [negb].
+  rewrite Hchk. clear Hchk. destruct ((3 <? cds cd) && (e_id e' =? mid)) eqn:Esel; cbn [negb].
   - (* selected *)
     apply andb_true_iff in Esel. destruct Esel as [Hc Hi]. apply Z.ltb_lt in Hc. apply Z.eqb_eq in Hi.
     assert (Hs : selects cd e' = true).
     { rewrite selects_long by (try assumption; lia). fold mid. rewrite Hi. apply Z.eqb_refl. }
     unfold spec_dispatch. rewrite (find_unique fns cd e' Hcd Hnd Hin' Hs).
-    destruct (nz _) eqn:Ec.
+    destruct (nz (w_iszero (w_or _ _))) eqn:Ec.
     + rewrite (dense_conditions _ _ _ Hv Ec). reflexivity.
     + rewrite (dense_conditions_neg _ _ _ Hv Ec). reflexivity.
   - (* fallback *)
